@@ -96,10 +96,18 @@ package state
 //@   modifies nothing
 //@   ensures [emptyMeansNoNonceNoBalance] r ==> s.data.Nonce == 0 && s.data.Balance.v == 0
 
+// Reverting a log removes exactly that log and gives its index back, also when it was the only log of
+// its transaction.
+//@ func (ch addLogChange) revert(s *StateDB)
+//@   for C08
+//@   requires s != nil && s.logs != nil
+//@   modifies s.logs[_], s.logSize
+//@   ensures [indexGivenBack] s.logSize == toUint64(old(s.logSize) - 1)
+
 // Self-destruct journals the mark and the balance as they were BEFORE it changes them, then marks the
 // account and empties it -- every time it is called, also on an account already marked.
 //@ func (s *StateDB) Suicide(addr common.Address) (r bool)
-//@   for C08 C09
+//@   for C08 C09 C10
 //@   requires s != nil && s.journal != nil && s.journal.dirties != nil
 //@   modifies s.stateObjects[_], s.journal.entries, s.journal.dirties[_], []journalEntry, stateObject.suicided, stateObject.data
 //@   ensures [noObjectNoEffect] !r ==> len(s.journal.entries) == old(len(s.journal.entries))
